@@ -2,6 +2,7 @@
 #![allow(clippy::all)]
 mod apr;
 mod cek;
+mod core_eta;
 mod gen_fun;
 mod emu;
 mod json;
